@@ -1,6 +1,7 @@
 package rules
 
 import (
+	"sort"
 	"go/ast"
 	"strings"
 
@@ -31,6 +32,8 @@ func runC06(p *eng.Prog, r *eng.Report, tier string) {
 	lockOrder(c, "C06.32")
 	c06SendResp(c)
 	c15HandlerEncoderStays(c, "C06.33")
+	c15OpenIsASetRequest(c, "C06.34")
+	c06ReceiptRegistrations(c, "C06.35")
 	c.r.Floor("C06.31", "blocking channel operations", lockHeldAcrossChannelOp(c, "C06.31", ""), 8)
 	c.r.Floor("C06.30", "closers received from a channel", receivedCloserNotDropped(c, "C06.30", func(f *eng.Fn) bool { return true }), 3)
 	c06Handoff(c)
@@ -463,4 +466,64 @@ func c06WaiterWithdrawnOnEveryExit(c *cx, id string) {
 		c.r.Check(id, f, "waiter entry withdrawn", "E-res: every return after the registration in Session.sentStanzas has passed the (deferred) removal of the entry", rs.Pos(), g.MustPassBefore(g.After(rp0), rp, isWithdraw, nil), "this return leaves the entry behind (a failed send): the serve loop blocks offering a later stanza with this id to a waiter that does not exist")
 	}
 	c.r.Floor(id, "returns of sendResp after the registration", n, 2)
+}
+
+// c06ReceiptRegistrations (C06.35): a call that waits for a delivery receipt
+// ends when the <received/> for its id arrives - in a message of any type,
+// type error included (the peer's bounce of a message that carries the receipt
+// is how a manually sent receipt comes back); requests are answered for every
+// type except error. receipts.Handle registers exactly that table: received
+// for the five message types, request for the four that are not error.
+func c06ReceiptRegistrations(c *cx, id string) {
+	f := c.fn(id, "receipts", "Handle")
+	if f == nil {
+		return
+	}
+	want := map[string]bool{}
+	for _, t := range []string{"NormalMessage", "ChatMessage", "HeadlineMessage", "GroupChatMessage", "ErrorMessage"} {
+		want["stanza."+t+"|received"] = true
+		if t != "ErrorMessage" {
+			want["stanza."+t+"|request"] = true
+		}
+	}
+	got := map[string]bool{}
+	var fns []*eng.Fn
+	fns = append(fns, f)
+	fns = append(fns, f.Lits...)
+	undecided := ""
+	for _, fn := range fns {
+		for _, cl := range fn.Calls("mux.Message") {
+			if len(cl.Args) < 2 {
+				continue
+			}
+			typ := fn.Norm(cl.Args[0], nil)
+			name := ""
+			if v := fn.Graph().LocalVar(cl.Args[1]); v != nil {
+				name = v.Name()
+			}
+			if !strings.HasPrefix(typ, "stanza.") || name == "" {
+				undecided = "registration with a computed type or name: " + fn.Prog.NodeStr(cl)
+				continue
+			}
+			got[typ+"|"+name] = true
+		}
+	}
+	var missing, extra []string
+	for k := range want {
+		if !got[k] {
+			missing = append(missing, k)
+		}
+	}
+	for k := range got {
+		if !want[k] {
+			extra = append(extra, k)
+		}
+	}
+	sort.Strings(missing)
+	sort.Strings(extra)
+	why := undecided
+	if len(missing)+len(extra) > 0 {
+		why = "missing " + strings.Join(missing, ", ") + "; extra " + strings.Join(extra, ", ") + " " + undecided
+	}
+	c.r.Check(id, f, "registrations of the receipt handler", "T: received for all five message types, request for the four that are not error", f.Pos(), why == "", why)
 }
